@@ -328,7 +328,7 @@ def lowpass_filter(
         order,
         real=True,
     )
-    out = irfftn(weight * rfftn(img))
+    out = irfftn(weight * rfftn(img), s=img.shape)
     return out.real
 
 
@@ -359,7 +359,7 @@ def highpass_filter(
         order,
         real=True,
     )
-    out = irfftn(weight * rfftn(img))
+    out = irfftn(weight * rfftn(img), s=img.shape)
     return out.real
 
 
